@@ -17,17 +17,17 @@ def swapEv : Ev → Ev
 
 def swapSys (s : Sys) : Sys := { p := s.p, a := s.b, b := s.a, ka := s.kb, kb := s.ka }
 
-theorem step_swap (s : Sys) (ev : Ev) : step (swapSys s) (swapEv ev) = swapSys (step s ev) := by
+theorem step_swap (s : Sys) (ev : Ev) : step0 (swapSys s) (swapEv ev) = swapSys (step0 s ev) := by
   cases ev with
   | app e op => cases e <;> rfl
   | io e i o h nr nw => cases e <;> rfl
   | timer e => cases e <;> rfl
 
-theorem run_swap (evs : List Ev) (s : Sys) : run (swapSys s) (evs.map swapEv) = swapSys (run s evs) := by
+theorem run_swap (evs : List Ev) (s : Sys) : run0 (swapSys s) (evs.map swapEv) = swapSys (run0 s evs) := by
   induction evs generalizing s with
   | nil => rfl
   | cons ev evs ih =>
-    show run (step (swapSys s) (swapEv ev)) (evs.map swapEv) = _
+    show run0 (step0 (swapSys s) (swapEv ev)) (evs.map swapEv) = _
     rw [step_swap, ih]
     rfl
 
@@ -43,21 +43,21 @@ theorem preEv_swap (ev : Ev) : preEv .A (swapEv ev) = preEv .B ev := by
   | io e i o h nr nw => rfl
   | timer e => rfl
 
-theorem run_append (s : Sys) (l1 l2 : List Ev) : run s (l1 ++ l2) = run (run s l1) l2 := by
-  simp [run, List.foldl_append]
+theorem run_append (s : Sys) (l1 l2 : List Ev) : run0 s (l1 ++ l2) = run0 (run0 s l1) l2 := by
+  simp [run0, List.foldl_append]
 
 theorem fairRound_noise : ∀ ev ∈ fairRound, noise ev = true := by decide
 
 /-- the fair completion is a run of readiness reports and delayed calls -/
 theorem runFair_eq_run (fuel : Nat) (s : Sys) :
-    ∃ evs, (∀ ev ∈ evs, noise ev = true) ∧ runFair fuel s = run s evs := by
+    ∃ evs, (∀ ev ∈ evs, noise ev = true) ∧ runFair0 fuel s = run0 s evs := by
   induction fuel generalizing s with
   | zero => exact ⟨[], by simp, rfl⟩
   | succ n ih =>
-    unfold runFair
+    unfold runFair0
     split
     · exact ⟨[], by simp, rfl⟩
-    · obtain ⟨evs, h1, h2⟩ := ih (run s fairRound)
+    · obtain ⟨evs, h1, h2⟩ := ih (run0 s fairRound)
       refine ⟨fairRound ++ evs, ?_, ?_⟩
       · intro ev hev
         rcases List.mem_append.mp hev with h | h
@@ -82,9 +82,14 @@ theorem good_fresh (p : Params) (ha hb : Bool) (ra rb : List AppOp) : Good (fres
 theorem cfg_fresh (p : Params) (ha hb : Bool) (ra rb : List AppOp) : SysCfg ha hb ra rb (fresh p ha hb ra rb) :=
   ⟨⟨rfl, rfl⟩, ⟨rfl, rfl⟩⟩
 
+/-- a fresh system of the discipline has no dataReceived / writeConnectionLost reaction: `run = run0` on it -/
+theorem noReact_fresh (p : Params) (ha hb : Bool) (ra rb : List AppOp) : NoReactS (fresh p ha hb ra rb) :=
+  ⟨⟨rfl, rfl⟩, ⟨rfl, rfl⟩⟩
+
 theorem inv1_run (p : Params) (ha hb : Bool) (ra rb : List AppOp) (evs : List Ev) :
-    Inv1 (run (fresh p ha hb ra rb) evs).a ∧ Inv1 (run (fresh p ha hb ra rb) evs).b := by
+    Inv1 (run0 (fresh p ha hb ra rb) evs).a ∧ Inv1 (run0 (fresh p ha hb ra rb) evs).b := by
   have := good_run evs _ (good_fresh p ha hb ra rb)
+  rw [run_eq_run0 evs _ (noReact_fresh p ha hb ra rb)] at this
   exact ⟨this.1.1, this.2.1⟩
 
 /-- what a protocol reacting to readConnectionLost may do under the discipline -/
@@ -97,24 +102,24 @@ def closeOk (half : Bool) (rl : List AppOp) : Prop := half = true → rl = [.los
 theorem lose_A (p : Params) (hp : 0 < p.sendLimit) (hc : 0 < p.cap) (ha hb : Bool) (ra rb : List AppOp)
     (hcfg : closeOk hb rb) (pre post : List Ev)
     (hpre : ∀ ev ∈ pre, preEv .A ev = true) (hpost : ∀ ev ∈ post, noise ev = true)
-    (hrd : (run (fresh p ha hb ra rb) pre).b.reading = true) :
-    let s := run (fresh p ha hb ra rb) (pre ++ .app .A .lose :: post)
+    (hrd : (run0 (fresh p ha hb ra rb) pre).b.reading = true) :
+    let s := run0 (fresh p ha hb ra rb) (pre ++ .app .A .lose :: post)
     SysLose false s ∧
     (s.quiescent = true → s.a.lost = [.done] ∧ s.b.lost = [.done] ∧ s.b.received = s.a.accepted ∧
       s.a.received = s.b.accepted) := by
   intro s
   have h0 := P0_run pre _ (by simpa [fresh, Sys.init] using hp) hpre (P0_fresh p ha hb ra rb)
   have hcf := sysCfg_run ha hb ra rb pre _ (cfg_fresh p ha hb ra rb)
-  have hcb : LoseCfg (run (fresh p ha hb ra rb) pre).b := by
+  have hcb : LoseCfg (run0 (fresh p ha hb ra rb) pre).b := by
     intro hh
     have := hcf.2
     simp only [CfgIs, Sys.view] at this
     rw [this.2]; exact hcfg (by rw [← this.1]; exact hh)
   have h1 := lose_entry _ h0 hrd hcb
-  have hs : s = run (step (run (fresh p ha hb ra rb) pre) (.app .A .lose)) post := by
-    show run _ _ = _
+  have hs : s = run0 (step0 (run0 (fresh p ha hb ra rb) pre) (.app .A .lose)) post := by
+    show run0 _ _ = _
     rw [run_append]; rfl
-  have hpp : ∀ evs, (run (fresh p ha hb ra rb) evs).p = p := fun evs => run_p evs _
+  have hpp : ∀ evs, (run0 (fresh p ha hb ra rb) evs).p = p := fun evs => run_p evs _
   have h2 : SysLose false s := by
     rw [hs]
     exact lose_run false post _ (by rw [step_p, hpp]; exact hp) hpost h1
@@ -131,30 +136,30 @@ theorem lose_A (p : Params) (hp : 0 < p.sendLimit) (hc : 0 < p.cap) (ha hb : Boo
 theorem half_A (p : Params) (hp : 0 < p.sendLimit) (hc : 0 < p.cap) (ha hb : Bool) (ra rb : List AppOp)
     (hcfa : closeOk ha ra) (hcfg : replyOk hb rb) (pre post : List Ev)
     (hpre : ∀ ev ∈ pre, preEv .A ev = true) (hpost : ∀ ev ∈ post, noise ev = true)
-    (hra : (run (fresh p ha hb ra rb) pre).a.reading = true)
-    (hrd : (run (fresh p ha hb ra rb) pre).b.reading = true) :
-    let s := run (fresh p ha hb ra rb) (pre ++ .app .A .loseWrite :: post)
+    (hra : (run0 (fresh p ha hb ra rb) pre).a.reading = true)
+    (hrd : (run0 (fresh p ha hb ra rb) pre).b.reading = true) :
+    let s := run0 (fresh p ha hb ra rb) (pre ++ .app .A .loseWrite :: post)
     SysHalf s ∧
     (s.quiescent = true → s.a.lost = [.done] ∧ s.b.lost = [.done] ∧ s.b.received = s.a.accepted ∧
       s.a.received = s.b.accepted) := by
   intro s
   have h0 := P0_run pre _ (by simpa [fresh, Sys.init] using hp) hpre (P0_fresh p ha hb ra rb)
   have hcf := sysCfg_run ha hb ra rb pre _ (cfg_fresh p ha hb ra rb)
-  have hca : LoseCfg (run (fresh p ha hb ra rb) pre).a := by
+  have hca : LoseCfg (run0 (fresh p ha hb ra rb) pre).a := by
     intro hh
     have := hcf.1
     simp only [CfgIs, Sys.view] at this
     rw [this.2]; exact hcfa (by rw [← this.1]; exact hh)
-  have hcb : ReplyCfg (run (fresh p ha hb ra rb) pre).b := by
+  have hcb : ReplyCfg (run0 (fresh p ha hb ra rb) pre).b := by
     intro hh
     have := hcf.2
     simp only [CfgIs, Sys.view] at this
     rw [this.2]; exact hcfg (by rw [← this.1]; exact hh)
   have h1 := half_entry _ h0 hra hrd hca hcb
-  have hs : s = run (step (run (fresh p ha hb ra rb) pre) (.app .A .loseWrite)) post := by
-    show run _ _ = _
+  have hs : s = run0 (step0 (run0 (fresh p ha hb ra rb) pre) (.app .A .loseWrite)) post := by
+    show run0 _ _ = _
     rw [run_append]; rfl
-  have hpp : ∀ evs, (run (fresh p ha hb ra rb) evs).p = p := fun evs => run_p evs _
+  have hpp : ∀ evs, (run0 (fresh p ha hb ra rb) evs).p = p := fun evs => run_p evs _
   have h2 : SysHalf s := by
     rw [hs]
     exact half_run post _ (by rw [step_p, hpp]; exact hp) hpost h1
@@ -172,14 +177,14 @@ theorem half_A (p : Params) (hp : 0 < p.sendLimit) (hc : 0 < p.cap) (ha hb : Boo
 theorem abort_A (p : Params) (ha hb : Bool) (ra rb : List AppOp) (pre post : List Ev)
     (hp : 0 < p.sendLimit)
     (hpre : ∀ ev ∈ pre, preEv .A ev = true) (hpost : ∀ ev ∈ post, noise ev = true)
-    (hrd : (run (fresh p ha hb ra rb) pre).b.reading = true) :
-    let s := run (fresh p ha hb ra rb) (pre ++ .app .A .abort :: post)
+    (hrd : (run0 (fresh p ha hb ra rb) pre).b.reading = true) :
+    let s := run0 (fresh p ha hb ra rb) (pre ++ .app .A .abort :: post)
     SysAbort s ∧ (s.quiescent = true → s.a.lost = [.aborted] ∧ s.b.lost = [.lost]) := by
   intro s
   have h0 := P0_run pre _ (by simpa [fresh, Sys.init] using hp) hpre (P0_fresh p ha hb ra rb)
   have h1 := abort_entry _ h0 hrd
-  have hs : s = run (step (run (fresh p ha hb ra rb) pre) (.app .A .abort)) post := by
-    show run _ _ = _
+  have hs : s = run0 (step0 (run0 (fresh p ha hb ra rb) pre) (.app .A .abort)) post := by
+    show run0 _ _ = _
     rw [run_append]; rfl
   have h2 : SysAbort s := by
     rw [hs]
@@ -198,7 +203,7 @@ def connOf (s : Sys) : Side → Conn
   | .B => s.b
 
 theorem fresh_swap (p : Params) (ha hb : Bool) (ra rb : List AppOp) (evs : List Ev) :
-    run (fresh p hb ha rb ra) (evs.map swapEv) = swapSys (run (fresh p ha hb ra rb) evs) :=
+    run0 (fresh p hb ha rb ra) (evs.map swapEv) = swapSys (run0 (fresh p ha hb ra rb) evs) :=
   run_swap evs (fresh p ha hb ra rb)
 
 theorem map_swap_close (pre post : List Ev) (op : AppOp) :
@@ -219,8 +224,8 @@ theorem post_swap (post : List Ev) (h : ∀ ev ∈ post, noise ev = true) : ∀ 
 theorem lose_any (p : Params) (hp : 0 < p.sendLimit) (hc : 0 < p.cap) (w : Side) (ha hb : Bool) (ra rb : List AppOp)
     (hcfg : match w with | .A => closeOk hb rb | .B => closeOk ha ra) (pre post : List Ev)
     (hpre : ∀ ev ∈ pre, preEv w ev = true) (hpost : ∀ ev ∈ post, noise ev = true)
-    (hrd : (connOf (run (fresh p ha hb ra rb) pre) (swapSide w)).reading = true) :
-    let s := run (fresh p ha hb ra rb) (pre ++ .app w .lose :: post)
+    (hrd : (connOf (run0 (fresh p ha hb ra rb) pre) (swapSide w)).reading = true) :
+    let s := run0 (fresh p ha hb ra rb) (pre ++ .app w .lose :: post)
     s.quiescent = true → s.a.lost = [.done] ∧ s.b.lost = [.done] ∧ s.b.received = s.a.accepted ∧
       s.a.received = s.b.accepted := by
   cases w with
@@ -238,9 +243,9 @@ theorem half_any (p : Params) (hp : 0 < p.sendLimit) (hc : 0 < p.cap) (w : Side)
     (hcfg : match w with | .A => closeOk ha ra ∧ replyOk hb rb | .B => closeOk hb rb ∧ replyOk ha ra)
     (pre post : List Ev)
     (hpre : ∀ ev ∈ pre, preEv w ev = true) (hpost : ∀ ev ∈ post, noise ev = true)
-    (hra : (run (fresh p ha hb ra rb) pre).a.reading = true)
-    (hrb : (run (fresh p ha hb ra rb) pre).b.reading = true) :
-    let s := run (fresh p ha hb ra rb) (pre ++ .app w .loseWrite :: post)
+    (hra : (run0 (fresh p ha hb ra rb) pre).a.reading = true)
+    (hrb : (run0 (fresh p ha hb ra rb) pre).b.reading = true) :
+    let s := run0 (fresh p ha hb ra rb) (pre ++ .app w .loseWrite :: post)
     s.quiescent = true → s.a.lost = [.done] ∧ s.b.lost = [.done] ∧ s.b.received = s.a.accepted ∧
       s.a.received = s.b.accepted := by
   cases w with
@@ -257,8 +262,8 @@ theorem half_any (p : Params) (hp : 0 < p.sendLimit) (hc : 0 < p.cap) (w : Side)
 theorem abort_any (p : Params) (hp : 0 < p.sendLimit) (w : Side) (ha hb : Bool) (ra rb : List AppOp)
     (pre post : List Ev)
     (hpre : ∀ ev ∈ pre, preEv w ev = true) (hpost : ∀ ev ∈ post, noise ev = true)
-    (hrd : (connOf (run (fresh p ha hb ra rb) pre) (swapSide w)).reading = true) :
-    let s := run (fresh p ha hb ra rb) (pre ++ .app w .abort :: post)
+    (hrd : (connOf (run0 (fresh p ha hb ra rb) pre) (swapSide w)).reading = true) :
+    let s := run0 (fresh p ha hb ra rb) (pre ++ .app w .abort :: post)
     s.quiescent = true → (connOf s w).lost = [.aborted] ∧ (connOf s (swapSide w)).lost = [.lost] := by
   cases w with
   | A => exact (abort_A p ha hb ra rb pre post hp hpre hpost hrd).2
